@@ -1,6 +1,7 @@
 """C05 implementation driver: pads real renders with the new Padding classes, with
 Renderable.render(padding=...), and with the old image API (_check_formatting +
-_format_render / format())."""
+_format_render / format()); and runs whole HISTORIES (kind "history": resizes, RenderIterator
+set_padding / set_render_size / seek / next, per-call paddings) in one forked process each."""
 import os
 
 import implenv
@@ -160,5 +161,186 @@ def run_case(case):
         _common.get_terminal_size, _rmod.get_terminal_size, term_image.utils.get_terminal_size = saved
 
 
+# ------------------------------------------------------------------------------- histories
+# A history is ONE case run in ONE process: terminal resizes, RenderIterator.set_padding /
+# set_render_size / seek / next on one iterator, and calls with their own padding (old image API:
+# format(image, spec), image.draw(...), _check_formatting + _format_render; new API:
+# Renderable.render(padding=)) on the same image instances / classes.  Every output is returned.
+
+
+def set_terminal(tw, th):
+    """The terminal is (tw, th) from now on, for every module of the library."""
+    import sys
+    ts = os.terminal_size((tw, th))
+    for name, mod in list(sys.modules.items()):
+        if name.startswith("term_image") and hasattr(mod, "get_terminal_size"):
+            mod.get_terminal_size = lambda: ts
+
+
+def digits(k, w, h):
+    return "\n".join([str(k % 10) * w] * h)
+
+
+class Digits(Renderable):
+    """Frame k at render size (w, h): h lines of w copies of the digit k."""
+
+    def __init__(self, n, size):
+        super().__init__(n, 1)
+        self._sz = size
+
+    def _get_render_size_(self):
+        return Size(*self._sz)
+
+    def _render_(self, render_data, render_args):
+        d = render_data[Renderable]
+        w, h = d.size
+        return Frame(d.frame_offset, 1, Size(w, h), digits(d.frame_offset, w, h))
+
+
+H_ALIGN = [["<", "left"], ["|", "center", None], [">", "right"]]
+V_ALIGN = [["^", "top"], ["-", "middle", None], ["_", "bottom"]]
+IMG_K = 100  # frame numbers of the images in the table of bare renders
+
+
+def old_format_spec(p, pres):
+    """"[h_align][width][.[v_align][height]]"; width 0 or absent = terminal width, height absent
+    = terminal height - 2, explicit 0 = terminal height"""
+    hc = ["<", "|", ">"][p["ha"]] if not (p["ha"] == 1 and pres % 3 == 2) else ""
+    vc = ["^", "-", "_"][p["va"]] if not (p["va"] == 1 and pres % 3 == 2) else ""
+    assert p["W"] >= 0 and (p["H"] >= 0 or p["H"] == -2)
+    ws = str(p["W"]) if p["W"] > 0 else ("0" if pres % 2 else "")
+    hs = "" if p["H"] == -2 else str(p["H"])
+    return hc + ws + ("." + vc + hs if vc + hs else "")
+
+
+def run_history(case):
+    import contextlib
+    import io
+    from term_image.render import RenderIterator
+    saved = {}
+    import sys
+    for name, mod in list(sys.modules.items()):
+        if name.startswith("term_image") and hasattr(mod, "get_terminal_size"):
+            saved[name] = mod.get_terminal_size
+    it = None
+    try:
+        set_terminal(*case["term_size"])
+        tests.set_cell_size((10, 20))
+        impl_render.KittyImage._supported = impl_render.ITerm2Image._supported = True
+        frames, outs = [], []
+        images = []
+        for n, spec in enumerate(case.get("images", [])):
+            cls = {"block": impl_render.BlockImage, "kitty": impl_render.KittyImage,
+                   "iterm2": impl_render.ITerm2Image}[spec["style"]]
+            impl_render.ITerm2Image._TERM = case["images"][0].get("term", "")  # per class: one per history
+            w, h = spec["cells"]
+            image = cls(impl_render.make_image(spec["img"]), width=w, height=h)
+            method = spec.get("args", {}).get("method", "lines")
+            tail = "" if spec["style"] == "block" else "+" + {"lines": "L", "whole": "W"}[method]
+            style = {} if spec["style"] == "block" else {"method": method}
+            bare = format(image, "1.1" + tail)
+            assert list(image.rendered_size) == [w, h], (image.rendered_size, w, h)
+            images.append((image, tail, style, bare, w, h))
+            frames.append([IMG_K + n, w, h, bare])
+        seen = set()
+
+        def digit_frame(k, w, h):
+            if (k, w, h) not in seen:
+                seen.add((k, w, h))
+                frames.append([k, w, h, digits(k, w, h)])
+
+        n_frames = case.get("frames", 0)
+        size = list(case.get("size", [1, 1]))
+        if n_frames:
+            it = RenderIterator(Digits(n_frames, size), padding=make_padding(case["pad0"], FILLS[case["pad0"]["fill"]]),
+                                loops=case.get("loops", -1), cache=case.get("cache", True))
+        callee = Digits(max(n_frames, 2), [1, 1])
+        for st in case["steps"]:
+            op = st["op"]
+            if op == "resize":
+                set_terminal(st["tw"], st["th"])
+            elif op == "set_padding":
+                it.set_padding(make_padding(st["pad"], FILLS[st["pad"]["fill"]]))
+            elif op == "set_size":
+                size = [st["w"], st["h"]]
+                it.set_render_size(Size(*size))
+            elif op == "seek":
+                it.seek(st["k"])
+            elif op == "next":
+                frame = next(it)
+                for k in range(n_frames):
+                    digit_frame(k, *size)
+                outs.append({"out": frame.render_output, "frame_size": list(frame.render_size), "number": frame.number})
+            elif op == "call":
+                p, via = st["pad"], st["via"]
+                if via == "render":  # new API: a padding given to Renderable.render()
+                    callee._sz = [st["w"], st["h"]]
+                    callee.seek(st["k"])
+                    frame = callee.render(padding=make_padding(p, FILLS[p["fill"]]))
+                    digit_frame(st["k"], st["w"], st["h"])
+                    outs.append({"out": frame.render_output, "frame_size": list(frame.render_size)})
+                    continue
+                image, tail, style, bare, w, h = images[st["k"] - IMG_K]
+                pres = st.get("pres", 0)
+                if via == "format":
+                    out = format(image, old_format_spec(p, pres) + tail)
+                else:
+                    ha = H_ALIGN[p["ha"]][pres % len(H_ALIGN[p["ha"]])]
+                    va = V_ALIGN[p["va"]][pres % len(V_ALIGN[p["va"]])]
+                    if via == "draw":
+                        buf = io.StringIO()
+                        with contextlib.redirect_stdout(buf):
+                            image.draw(ha, p["W"], va, p["H"], check_size=False, **style)
+                        out = buf.getvalue()
+                        SGR_DEFAULT = _common.SGR_DEFAULT
+                        end = SGR_DEFAULT + "\n"  # draw()'s own epilogue (C06's business)
+                        assert out.endswith(end), repr(out[-20:])
+                        out = out[: -len(end)]
+                    else:  # "fmt": the two halves of format() / draw() called directly
+                        out = image._format_render(bare, *image._check_formatting(ha, p["W"], va, p["H"]))
+                outs.append({"out": out, "frame_size": None})
+            else:
+                raise ValueError(op)
+        return {"outs": outs, "frames": frames}
+    except Exception as e:
+        import traceback
+        return {"error": f"{type(e).__name__}: {e} {traceback.format_exc()[-400:]}"}
+    finally:
+        if it is not None:
+            it.close()
+        for name, f in saved.items():
+            sys.modules[name].get_terminal_size = f
+
+
+def run_isolated(case):
+    """A history runs in a forked child of this (freshly imported, otherwise idle) process: whatever
+    the library remembers at process level from one history cannot reach the next one, and a replay
+    of the single history sees exactly the same initial state."""
+    import json
+    r, w = os.pipe()
+    pid = os.fork()
+    if pid == 0:
+        code = 0
+        try:
+            os.close(r)
+            with os.fdopen(w, "w") as f:
+                f.write(json.dumps(run_history(case)))
+        except BaseException:
+            code = 1
+        finally:
+            os._exit(code)
+    os.close(w)
+    with os.fdopen(r) as f:
+        data = f.read()
+    _, status = os.waitpid(pid, 0)
+    if status != 0 or not data:
+        return {"error": f"history child exited with status {status}"}
+    return json.loads(data)
+
+
+def dispatch(case):
+    return run_isolated(case) if case.get("kind") == "history" else run_case(case)
+
+
 if __name__ == "__main__":
-    implenv.write_results([run_case(c) for c in implenv.read_cases()])
+    implenv.write_results([dispatch(c) for c in implenv.read_cases()])
